@@ -175,7 +175,7 @@ func (r *TLCResult) Clean() bool {
 func asciiEscape(s string) string {
 	ok := true
 	for i := 0; i < len(s); i++ {
-		if s[i] >= 0x7f || (s[i] < 0x20 && s[i] != '\n' && s[i] != '\t') {
+		if s[i] >= 0x7f || (s[i] < 0x20 && s[i] != '\n' && s[i] != '\t' && s[i] != '\r') {
 			ok = false
 			break
 		}
@@ -188,7 +188,7 @@ func asciiEscape(s string) string {
 		r, n := utf8.DecodeRuneInString(s)
 		if r == utf8.RuneError && n == 1 {
 			fmt.Fprintf(&sb, `\x{%02x}`, s[0])
-		} else if r >= 0x7f || (r < 0x20 && r != '\n' && r != '\t') {
+		} else if r >= 0x7f || (r < 0x20 && r != '\n' && r != '\t' && r != '\r') {
 			fmt.Fprintf(&sb, `\u{%x}`, r)
 		} else {
 			sb.WriteRune(r)
